@@ -130,14 +130,15 @@ class IterableQueue(Iterator[Elem]):
             self._can_timeout = False
         else:
             self._can_timeout = True
-            if to_stop is not None:
-                q = ResponsiveQueue(q, to_stop)
+        is_thread_queue = isinstance(q, (queue.Queue, queue.SimpleQueue))
+        if self._can_timeout and to_stop is not None:
+            q = ResponsiveQueue(q, to_stop)
 
         self._q = q
         self._to_stop = to_stop
 
         self._num_suppliers = num_suppliers
-        if isinstance(q, (queue.Queue, queue.SimpleQueue)):
+        if is_thread_queue:
             self._spare_lids = queue.Queue(maxsize=num_suppliers)
             self._applied_lids = queue.Queue(maxsize=num_suppliers)
             self._used_lids = queue.Queue(maxsize=num_suppliers)
@@ -238,7 +239,9 @@ class IterableQueue(Iterator[Elem]):
                         raise StopRequested
         else:
             try:
-                z = self._spare_lids.get(timeout=0.01)
+                z = self._spare_lids.get(timeout=1.0)
+                # If the helper queues are process queues, the lids returned by `renew`
+                # travel through a feeder thread and may take a moment to show up.
             except queue.Empty:
                 raise RuntimeError(
                     '`put_end` is called more than `num_suppliers` times'
